@@ -191,6 +191,8 @@ def hostile_scenario(rng):
             extra.append(("send", bad, data[prev:cpos])); prev = cpos
         if rng.random() < 0.5 and len(data) < 2000:
             extra.append(("wait", bad))
+    if not (extra and extra[-1][0] == "wait"):
+        extra.append(("send", bad, b"nodes\r\n")); extra.append(("wait", bad))
     end = rng.choice(["eof", "rst", "none", "quit"])
     if end == "eof": extra.append(("raw", ["EOF c%d" % bad]))
     elif end == "rst": extra.append(("raw", ["RST c%d" % bad]))
